@@ -44,7 +44,7 @@ theorem expectTest_none_iff (dt : TDefects) (e : Expect) (τ : OTy) :
     | none => by_cases h : dt.nilKindPanic = true <;> simp [h, OTy.kind]
     | some tt => by_cases h : tt.kind = RKind.bool <;> simp [h, OTy.kind]
 
-theorem good_init : Good ({} : CState) := ⟨rfl, rfl⟩
+theorem good_init : CkGood ({} : CState) := ⟨rfl, rfl⟩
 
 theorem failResult_ne_ok (f : ExpectFail) (n' n'' : Node) (τ : OTy) : f.result n' ≠ .ok n'' τ := by
   cases f <;> simp [ExpectFail.result]
@@ -52,9 +52,9 @@ theorem failResult_ne_ok (f : ExpectFail) (n' n'' : Node) (τ : OTy) : f.result 
 /-- `check` answers `ok` exactly when the visit ends clean and the result directive is satisfied -/
 theorem check_ok_iff (cfg : CheckCfg) (n n'' : Node) (τ : OTy) :
     check cfg n = .ok n'' τ ↔
-      (visit cfg n {}).1 = n'' ∧ (visit cfg n {}).2.1 = τ ∧ Good (visit cfg n {}).2.2 ∧
+      (visit cfg n {}).1 = n'' ∧ (visit cfg n {}).2.1 = τ ∧ CkGood (visit cfg n {}).2.2 ∧
       expectTest cfg.dt cfg.expect τ = none := by
-  unfold check Good
+  unfold check CkGood
   rcases hv : visit cfg n {} with ⟨n', t, st⟩
   simp only []
   cases hp : st.panic with
@@ -158,8 +158,8 @@ theorem as_kind_exact (cfg : CheckCfg) (n n' : Node) (τ : OTy) (h : check cfg n
 
 /-- **An error recorded in a sub-visit is never cleared**: from a state that already holds an error
 (or a panic), visiting any tree leaves a state that still holds one. -/
-theorem error_never_cleared (cfg : CheckCfg) (n : Node) (st : CState) (h : ¬ Good st) :
-    ¬ Good (visit cfg n st).2.2 :=
+theorem error_never_cleared (cfg : CheckCfg) (n : Node) (st : CState) (h : ¬ CkGood st) :
+    ¬ CkGood (visit cfg n st).2.2 :=
   (visit_spec cfg n st).2.1 h
 
 /-- the visitor leaves the stack of collection types as it found it -/
